@@ -21,6 +21,7 @@ EXPLANATION = (
     "up by name then alias, and only get_redirect_resource / get_permissioned_resource may call the "
     "raw lookup."
     ' Later additions: a redirect rule, important or not, is filed under a blocking list iff ALSO_BLOCK_REDIRECT; equal priorities are resolved by a strict comparison of the resource names (truth table over the update decision); the JSON keys of Resource / ResourceType and the media-type strings of MimeType are the established ones, writer and reader agree; add_resource writes nothing before its last rejection; use_resources replaces the storage.'
+    ' Round 8: every redirect rule and redirect exception reaches the redirects list as a function of the rule alone (C04.1 routing borrowed).'
 )
 NOT_DECIDED = "Selection of the maximum over runtime priorities, priority parsing and tie behaviour."
 
@@ -70,18 +71,19 @@ def rule_gate(run, F, cfg):
     run.touched(g, *cl)
     # the raw lookup result flows into and_then(closure)
     n = 0
-    for c in cl:
+    RES = r"(arg:resource|.*ResourceStorage::get_internal_resource\(.*\)(@Continue\.0|@Some\.0))"
+    # the gate may sit in the closure of `lookup.and_then(|resource| ..)` or, after `let resource = lookup?;`, in the
+    # function itself: every data-URL is produced under the three tests of the looked-up resource
+    for c in list(cl) + [g]:
         for kind, b, val, conds, _ in conditional_defs(c, 0):
-            if "Option::Some" not in val and not val.startswith("std::option::Option::Some"):
-                if "None" in val:
-                    continue
-                # a non-constant value (e.g. result of another call)
-            if "None" in val and "Some" not in val:
+            if "Option::Some" not in val or "format" not in val and "String" not in val and "Some{0:" not in val:
                 continue
+            if c is g and "and_then" in val:
+                continue        # the closure form: its Some results are examined in the closure
             n += 1
-            ok_p = has_cond(conds, r"PermissionMask::is_default\(arg:resource\.permission\)$", 1)
-            ok_k = has_cond(conds, r"ResourceType::supports_redirect\(arg:resource\.kind\)$", 1)
-            ok_m = any(re.search(r"^discr\(arg:resource\.kind\)$", e) and v == 0 for e, v in conds.items())
+            ok_p = has_cond(conds, r"PermissionMask::is_default\(" + RES + r"\.permission\)$", 1)
+            ok_k = has_cond(conds, r"ResourceType::supports_redirect\(" + RES + r"\.kind\)$", 1)
+            ok_m = any(re.search(r"^discr\(" + RES + r"\.kind\)$", e) and v == 0 for e, v in conds.items())
             run.ob("C13.1.permission-kind-gate", f"some#{n}", ok_p and ok_k and ok_m,
                    f"a redirect data-URL is produced only under permission.is_default() [{ok_p}], "
                    f"kind.supports_redirect() [{ok_k}] and kind == Mime(..) [{ok_m}]",
@@ -90,10 +92,11 @@ def rule_gate(run, F, cfg):
     run.floor("C13.1.permission-kind-gate", f"Some(..) results in get_redirect_resource [{cfg}]", n, 1)
     raw = g.calls(r"^resources::resource_storage::ResourceStorage::get_internal_resource$")
     at = g.calls(r"^std::option::Option::and_then$")
-    ok = len(raw) == 1 and len(at) == 1 and "get_internal_resource" in g.expr_operand(at[0][1]["args"][0])
-    run.ob("C13.1.permission-kind-gate", "result-through-gate", ok and "and_then" in g.expr_local(0),
-           "get_redirect_resource returns get_internal_resource(..).and_then(<gate closure>) — no path "
-           "returns the resource without passing the gate", site=g.loc(0), config=cfg)
+    ok = len(raw) == 1 and ((len(at) == 1 and "get_internal_resource" in g.expr_operand(at[0][1]["args"][0]) and "and_then" in g.expr_local(0))
+                            or (not at and n >= 1))
+    run.ob("C13.1.permission-kind-gate", "result-through-gate", ok,
+           "get_redirect_resource has one raw lookup, whose result reaches the caller only through the gate "
+           "(`.and_then(<gate closure>)`, or `let resource = lookup?;` followed by the gate)", site=g.loc(0), config=cfg)
     # supports_redirect table
     s = F.fn("resources::ResourceType::supports_redirect")
     run.touched(s)
@@ -343,6 +346,18 @@ def rule_lookup(run, F, cfg):
             if "aliases" in g.expr_operand(t["args"][0]):
                 c = dominating_conditions(g, b)
                 ok = ok and any("self.resources" in e and v in (0, ("not", (1,))) for e, v in c.items())
+    if not ok and fields == ["resources"]:
+        # `self.resources.get(ident).or_else(|| self.resources.get(self.aliases.get(ident)?))`: the closure of or_else
+        # runs exactly when the lookup by name missed
+        oe = g.calls(r"^std::option::Option::or_else$")
+        if len(oe) == 1 and re.match(r"^std::collections::HashMap::get\(arg:self\.resources, arg:\w+\)$", g.expr_operand(oe[0][1]["args"][0])):
+            mcl = re.search(r"closure\[([^\]]+)\]", g.expr_operand(oe[0][1]["args"][1]))
+            c_ = F.fns.get(mcl.group(1)) if mcl else None
+            if c_ is not None:
+                cf = [re.search(r"up:self\.(\w+)", c_.expr_operand(t["args"][0])) for b, t in c_.calls(r"^std::collections::HashMap::get$")]
+                cf = [m.group(1) for m in cf if m]
+                fields = fields + cf
+                ok = sorted(cf) == ["aliases", "resources"] and "or_else" in g.expr_local(0)
     run.ob("C13.5.lookup", "name-then-alias", ok,
            f"get_internal_resource looks the identifier up by name first and by alias only if that "
            f"missed (lookups: {fields})", site=g.loc(0), config=cfg)
